@@ -21,6 +21,7 @@ CONSTANTS Insts,       \* set of operator instances
           Cuts,        \* BOOLEAN: also enumerate an Unsubscribe at every position
           SyncEnds,    \* set of choices [s, k] for a source that ends (k = "C" / "E") SYNCHRONOUSLY, inside its own subscription (s = 0: none):
                        \* the other sources must be handled as if the terminal had arrived right after Subscribe (C14: nothing is leaked)
+          Tails,       \* set of downstream stages placed after the operator: "none", "Take1", "Throw1" (C14: an early-terminating downstream)
           PanicSrcs    \* set of choices for the source whose teardown panics (0 = none): C03, a panicking teardown does not stop the others
 
 Mark(s, j) == IF s = 1 THEN <<"i10", "i11", "i12", "i13">>[j + 1] ELSE IF s = 2 THEN <<"i20", "i21", "i22", "i23">>[j + 1] ELSE <<"i30", "i31", "i32", "i33">>[j + 1]
@@ -31,9 +32,10 @@ VARIABLES m,        \* the operator instance
           phase, closed, unsub, log, h,
           sent,     \* sent[s]: notifications source s has emitted so far
           psrc,     \* the source whose teardown panics (0 = none); it changes nothing in what must be observed
+          tail,     \* the downstream stage of this case
           sync      \* the source that ends synchronously while being subscribed ([s |-> 0] = none)
 
-vars == <<m, st, phase, closed, unsub, log, h, sent, psrc, sync>>
+vars == <<m, st, phase, closed, unsub, log, h, sent, psrc, sync, tail>>
 Srcs == 1..m.k
 
 Obs(d, cl, s2) == [log |-> d, closed |-> cl,
@@ -46,8 +48,15 @@ Init ==
   /\ sent = [s \in 1..3 |-> 0]
   /\ psrc \in {x \in PanicSrcs : x <= m.k}
   /\ sync \in {x \in SyncEnds : x.s <= m.k}
+  /\ tail \in (IF m.op = "WindowWhen" THEN {"none"} ELSE Tails)
 
 SyncNotif == IF sync.k = "E" THEN E(sync.s, SubCtx \cup {TMark(sync.s)}) ELSE C(SubCtx \cup {TMark(sync.s)})
+
+\* the downstream stage sees the outputs of one arrival; when it terminates the stream every source still live is released at once
+Cut(a) ==
+  LET t == TailCut(tail, a.out) IN
+  IF ~t.cut THEN a
+  ELSE [st |-> [a.st EXCEPT !.done = TRUE, !.torn = @ \cup (a.st.live \ a.st.ended), !.live = {}], out |-> t.out, closed |-> TRUE]
 
 Subscribe ==
   /\ phase = "new"
@@ -59,24 +68,24 @@ Subscribe ==
             /\ UNCHANGED closed
        ELSE \* the terminal of the synchronous source is processed with every source subscribed (a source the operator no longer needs
             \* may also never be subscribed at all - the replayer accepts both; what it never accepts is a source left subscribed)
-            LET a == ArriveF(m, s2, FALSE, sync.s, SyncNotif) IN
+            LET a == Cut(ArriveF(m, s2, FALSE, sync.s, SyncNotif)) IN
             /\ st' = a.st
             /\ log' = log \o SubOutF(m) \o a.out
             /\ closed' = a.closed
             /\ h' = Append(h, [do |-> "sub", src |-> sync.s, n |-> SyncNotif, exp |-> Obs(SubOutF(m) \o a.out, a.closed, a.st)])
   /\ phase' = "run"
-  /\ UNCHANGED <<m, unsub, sent, psrc, sync>>
+  /\ UNCHANGED <<m, unsub, sent, psrc, sync, tail>>
 
 Push(s, n) ==
   /\ phase = "run" /\ Len(h) <= MaxSteps /\ s \in Srcs
   /\ s \notin st.ended /\ sent[s] < MaxPerSrc
-  /\ LET a == ArriveF(m, st, closed, s, n)
+  /\ LET a == Cut(ArriveF(m, st, closed, s, n))
      IN /\ st' = a.st
         /\ log' = log \o a.out
         /\ closed' = a.closed
         /\ h' = Append(h, [do |-> "push", src |-> s, n |-> n, exp |-> Obs(a.out, a.closed, a.st)])
   /\ sent' = [sent EXCEPT ![s] = @ + 1]
-  /\ UNCHANGED <<m, phase, unsub, psrc, sync>>
+  /\ UNCHANGED <<m, phase, unsub, psrc, sync, tail>>
 
 Unsub ==
   /\ Cuts /\ phase = "run" /\ ~unsub /\ Len(h) <= MaxSteps
@@ -84,7 +93,7 @@ Unsub ==
      /\ st' = s2
      /\ h' = Append(h, [do |-> "unsub", src |-> 0, n |-> C({}), exp |-> Obs(<<>>, TRUE, s2)])
   /\ unsub' = TRUE /\ closed' = TRUE
-  /\ UNCHANGED <<m, phase, log, sent, psrc, sync>>
+  /\ UNCHANGED <<m, phase, log, sent, psrc, sync, tail>>
 
 Notifs(s) == {N(10 * s + sent[s], SubCtx \cup {Mark(s, sent[s])}), E(s, SubCtx \cup {TMark(s)}), C(SubCtx \cup {TMark(s)})}
 
@@ -101,5 +110,5 @@ Grammar == \A j \in 1..Len(Outer) : j < Len(Outer) => Outer[j].k = "N"
 ClosedReleasesAll == closed => st.live = {}
 TypeOK == st.live \cap st.torn = {} /\ st.live \cap st.ended = {}
 
-EmitCase == Done => PrintT(ToJson([m |-> m, steps |-> h, panic |-> psrc, sync |-> sync.s]))
+EmitCase == Done => PrintT(ToJson([m |-> m, steps |-> h, panic |-> psrc, sync |-> sync.s, tail |-> tail]))
 =============================================================================
